@@ -66,6 +66,8 @@ deriving Inhabited
 def orphanBound : Nat := BV.Generated.C02.maxOrphanBlocks.toNat
 
 def stepD (s : State) : DOp → State × Res
+  -- the genesis header has no known parent (the zero hash): always refused
+  | .op (.header ⟨0, _, _, _, _, _, _⟩) => (s, .rej)
   | .op (.block b) => processBlockB orphanBound false none s b
   | .op o => step s o
   | .fast b => processBlockB orphanBound true none s b
@@ -83,12 +85,13 @@ def parseOp? (bs : List BlockAbs) (t : String) : Option DOp :=
     match body.toNat? with
     | none => none
     | some id =>
-      let blk := bs.find? (fun b => b.hash == id)
+      -- id 0: the genesis block / header itself is (re-)delivered
+      let blk := if id == 0 then some genesisBlk else bs.find? (fun b => b.hash == id)
       if k == 'b' || k == 'n' then blk.map (fun b => DOp.op (Op.block b))
       else if k == 'f' then blk.map DOp.fast
       else if k == 'h' || k == 'k' then blk.map (fun b => DOp.op (Op.header b))
-      else if k == 'i' then (if id == 0 || blk.isSome then some (.op (.invalidate id ch)) else none)
-      else if k == 'r' then (if id == 0 || blk.isSome then some (.op (.reconsider id ch)) else none)
+      else if k == 'i' then (if blk.isSome then some (.op (.invalidate id ch)) else none)
+      else if k == 'r' then (if blk.isSome then some (.op (.reconsider id ch)) else none)
       else if k == 'R' then some .restart
       else none
   | [] => none
